@@ -25,6 +25,7 @@ def run(ck: Checker) -> None:
     ck.guard("R-PRESENCE", lambda: T.r_presence(ck))
     ck.guard("R-PRESENCE", lambda: T.r_child_abc(ck))
     ck.guard("R-ENUM-SHAPE", lambda: T.r_enum_shape(ck))
+    ck.guard("R-ENUM-SHAPE", lambda: T.r_props_dict(ck))
     ck.guard("R-GEN-PURE", lambda: T.r_gen_pure(ck))
     ck.guard("R-TYPES-CACHE", lambda: T.r_types_cache(ck))
     from .c11 import r_child_kind
